@@ -429,7 +429,14 @@ def run_case(case, ctx):
             o = tr.getObs(i)
             o.position.setX(2.0 * pts[i][0] + pts[i][1] + 1.0)
             o.position.setY(pts[i][1] - 0.5 * pts[i][0] - 3.0)
-            o.timestamp = gen.obstime_from_ms(ms2[i])
+            if (n + int(ms[0] // 1000)) % 2:
+                o.timestamp = gen.obstime_from_ms(ms2[i])
+            else:
+                # the timestamp object is kept and its public calendar fields are set in place
+                t_ = o.timestamp
+                t_.year, t_.month, t_.day, t_.hour, t_.min, t_.sec, t_.ms = gen.fields_from_ms(ms2[i])
+        if not (n + int(ms[0] // 1000)) % 2:
+            cls.append("timestamps_edited_in_place")
         snap2 = _snapshot(tr)
         P2 = list(zip(snap2["x"], snap2["y"]))
         if [gen.ms_from_fields(*f) for f in snap2["t"]] == list(ms2):
@@ -520,7 +527,7 @@ def classify(case, witness):
 # floors for the call-history workloads added in session 3 (a run in which they were silently skipped is inconclusive)
 _floors_base = floors
 _FLOORS_EXTRA = {'monitors': {'abs_curv_after_trimming': 1000},
-                 'classes': {'track_of_1000+_fixes': 20, 'timestamp_fields_held_as_numpy_ints': 500}}
+                 'classes': {'track_of_1000+_fixes': 20, 'timestamps_edited_in_place': 500, 'timestamp_fields_held_as_numpy_ints': 500}}
 
 
 def floors(tier):
